@@ -75,6 +75,29 @@ theorem cache_recovery_filtered (pass : F → T → Bool) (sf cf : Option F) (re
     | some c => exact key none (some c) h
   | some s => exact key (some s) cf h
 
+/-- the cache-mode subscribe reply (recovered publication merged with the window, last one only) -/
+theorem cache_reply_filtered (pass : F → T → Bool) (sf cf : Option F) (rev buffered : List (Pub T)) :
+    ∀ p ∈ cacheReply pass sf cf rev buffered, Passes pass sf cf p := by
+  intro p hp
+  unfold cacheReply at hp
+  generalize hl : (cacheRecovery pass sf cf rev).toList ++ buffered.filter (fun p => !(wasFiltered pass sf cf p.tags)) = l at hp
+  cases hlast : l.getLast? with
+  | none => simp [hlast] at hp
+  | some q =>
+    simp only [hlast, List.mem_singleton] at hp
+    subst hp
+    have hmem : p ∈ l := List.mem_of_getLast? hlast
+    rw [← hl, List.mem_append] at hmem
+    rcases hmem with h | h
+    · have : cacheRecovery pass sf cf rev = some p := by
+        cases hc : cacheRecovery pass sf cf rev with
+        | none => simp [hc] at h
+        | some r => simp [hc] at h; rw [h]
+      exact cache_recovery_filtered pass sf cf rev p this
+    · simp only [List.mem_filter] at h
+      have : wasFiltered pass sf cf p.tags = false := by simpa using h.2
+      exact (not_wasFiltered_iff pass sf cf p.tags).1 this
+
 theorem mapPage_filtered (pass : F → T → Bool) (sf cf : Option F) (ps : List (Pub T)) :
     ∀ p ∈ mapPage pass sf cf ps, Passes pass sf cf p ∧ p ∈ ps := by
   intro p hp
